@@ -1,6 +1,7 @@
 package main
 
 import (
+	"encoding/json"
 	"fmt"
 	"regexp"
 	"strconv"
@@ -19,6 +20,7 @@ import (
 //   hooks        identity HookValueLoadPre / HookValueLoadPost / HookValueStore
 //   hooks2       identity HookValueLoadPre / HookValueLoadPost that calls doCompute only for computed values
 //   gnil         empty global table (GlobalValueLoadFunc -> nil) + identity GlobalValueLoadOverwriteFunc
+//   gjson:<hex>  global variables served from a JSON variable map that is decoded afresh on every load
 //   rewr         identity CustomDetailRewriteFunc / CustomDetailSpanRewriteFunc
 // Output: "<ok VALUE d=DETAIL m=MATCHED r=REST seed=SEED|err MSG> vars=… calls=<hex log of handler calls>"
 func customLine(t []string) string {
@@ -145,6 +147,21 @@ func customLine(t []string) string {
 					}
 					return &ds.CustomDiceParseResult{Matched: true, Groups: []string{"", digits}, Payload: digits}, nil
 				}, handler("sphash"))
+			case strings.HasPrefix(sp, "gjson:"):
+				// a host whose global variables live in a JSON document and are DECODED ON EVERY LOAD (each load hands out a fresh object)
+				doc, ok := unhx(sp[6:])
+				if !ok {
+					return "bad-op"
+				}
+				vm.GlobalValueLoadFunc = func(name string) *ds.VMValue {
+					m := &ds.ValueMap{}
+					if err := json.Unmarshal([]byte(doc), m); err != nil {
+						return nil
+					}
+					v, _ := m.Load(name)
+					return v
+				}
+				vm.GlobalValueStoreFunc = func(name string, v *ds.VMValue) {}
 			case sp == "spzero":
 				_ = vm.RegCustomDiceParser(func(ctx *ds.Context, s *ds.CustomDiceStream) (*ds.CustomDiceParseResult, error) {
 					return &ds.CustomDiceParseResult{Matched: true}, nil
